@@ -53,7 +53,9 @@ structure Crash where
 
 def Crash.onStack (c : Crash) (sub : String) : Bool := c.frames.any (has · sub)
 
-/-- Does the observed crash (site, message, stack) belong to this modelled guard? Every guard is
+/-- Does the observed crash belong to this modelled guard? Decided on the **whole stack** (`frames`,
+every phase: Init, Inject, Inherit, Handle, Handle2 …) plus the panic message where the stack alone is
+ambiguous — never on the top frame only. Every guard is
 matched only by its own crash site, so that a known finding is never matched by a different crash. -/
 def explains (guard : String) (c : Crash) : Bool :=
   if guard == "Pipeline.flow.namespace" then
@@ -65,13 +67,13 @@ def explains (guard : String) (c : Crash) : Bool :=
   else if guard == "Validator.signature.accessKeys" then
     c.onStack "util/signer.(*Signer).Verify"
   else if guard == "Proxy.retryPolicy" then
-    has c.site "InjectResiliencePolicy" && (has c.msg "retry policy" )
+    c.onStack "InjectResiliencePolicy" && has c.msg "retry policy"
   else if guard == "Proxy.circuitBreakerPolicy" then
-    has c.site "InjectResiliencePolicy" && (has c.msg "circuitbreaker policy" || has c.msg "circuitBreaker policy")
-  else if guard.startsWith "RequestAdaptor." then has c.site "requestadaptor.(*RequestAdaptor).Init"
-  else if guard.startsWith "ResponseAdaptor." then has c.site "responseadaptor.(*ResponseAdaptor).Init"
+    c.onStack "InjectResiliencePolicy" && (has c.msg "circuitbreaker policy" || has c.msg "circuitBreaker policy")
+  else if guard.startsWith "RequestAdaptor." then c.onStack "requestadaptor.(*RequestAdaptor).Init"
+  else if guard.startsWith "ResponseAdaptor." then c.onStack "responseadaptor.(*ResponseAdaptor).Init"
   else if guard == "RequestBuilder.template" || guard == "ResponseBuilder.template" then
-    has c.site "builder.(*Builder).reload"
+    c.onStack "builder.(*Builder).reload"
   else if has guard ".regex" then c.onStack "regexp.MustCompile"
   else false
 
